@@ -45,7 +45,14 @@ Proof.
   destruct (sign_raw E sk sch _) as [sd|] eqn:Hs; intros Hx; inversion Hx. eauto.
 Qed.
 
-(** A cleaner form: everything about the produced structure stated directly. *)
+(** SignKM/SignBPM and VerifyKM/VerifyBPM cut at the same offset of a structure,
+    for both generations and both documents (false for BG 1.0 BPMs before ee4d7c9). *)
+Lemma cut_agree E g d m : sign_cut E g d m = verify_cut E g d m.
+Proof. destruct g, d; reflexivity. Qed.
+
+(** A cleaner form: everything about the produced structure stated directly.
+    [Hoff]: storing key and signature does not move the signature offset (a fact
+    about the codec's offset accessors). *)
 Theorem sign_verify_struct E g d m sch req sk sd :
   scheme_sound E -> store_laws E ->
   let m0 := prep E g d m in
@@ -53,13 +60,14 @@ Theorem sign_verify_struct E g d m sch req sk sd :
   sign_raw E sk sch (signed_message E g d m0) = Some sd ->
   detect (ser E m') = Some g ->
   parse E g d (ser E m') = Some m' ->
-  verify_cut E g d m' = sign_cut E g d m0 ->
+  sign_cut E g d m' = sign_cut E g d m0 ->
   firstn (sign_cut E g d m0) (ser E m') = firstn (sign_cut E g d m0) (ser E m0) ->
   (g = V10 \/ stored_hash g sch (req_hash E d m0 req) = scheme_hash sch) ->
   sign_manifest E g d m sch req sk = Ok (ser E m') /\
   verify_file E d (ser E m') = Ok tt.
 Proof.
-  intros Hsound Hstore m0 m' Hsd Hdet Hparse Hcut Hpre Hlab.
+  intros Hsound Hstore m0 m' Hsd Hdet Hparse Hoff Hpre Hlab.
+  assert (Hcut : verify_cut E g d m' = sign_cut E g d m0) by (rewrite <- cut_agree; exact Hoff).
   split. { apply sign_manifest_ok. exact Hsd. }
   unfold verify_file. rewrite Hdet, Hparse.
   unfold verify_manifest, verified_message. rewrite Hcut, Hpre.
@@ -69,6 +77,24 @@ Proof.
   rewrite Hk, Hs.
   pose proof (Hsound g sk sch _ _ sd Hsd Hlab) as Hv. unfold signed_message in Hv.
   rewrite Hv. reflexivity.
+Qed.
+
+(** Boot Guard 1.0, KM and BPM alike: no condition on the glue is left (the label
+    stored with the signature is ignored by BG 1.0 verification, the cuts agree). *)
+Theorem sign_verify_bg10 E d m sch req sk sd :
+  scheme_sound E -> store_laws E ->
+  let m0 := prep E V10 d m in
+  let m' := signed_struct E V10 d m sch req sk sd in
+  sign_raw E sk sch (signed_message E V10 d m0) = Some sd ->
+  detect (ser E m') = Some V10 ->
+  parse E V10 d (ser E m') = Some m' ->
+  sign_cut E V10 d m' = sign_cut E V10 d m0 ->
+  firstn (sign_cut E V10 d m0) (ser E m') = firstn (sign_cut E V10 d m0) (ser E m0) ->
+  sign_manifest E V10 d m sch req sk = Ok (ser E m') /\
+  verify_file E d (ser E m') = Ok tt.
+Proof.
+  intros Hsound Hstore m0 m' Hsd Hdet Hparse Hoff Hpre.
+  apply sign_verify_struct; auto.
 Qed.
 
 (** * 2. tampering *)
@@ -292,6 +318,44 @@ Proof.
     rewrite Hb, Hlen in Hh. lia.
 Qed.
 
+(** BPMKeyMatchKMHash never reports a match without a comparison that succeeded
+    (all inputs, no hypothesis): the fail-open of the code before 24a2a40 is gone. *)
+Lemma bg_key_match_compared H alg buf keyalg kd :
+  bg_key_match H alg buf keyalg kd = Ok true ->
+  bg_has_hash buf = true /\ check_key_hash H bg_hash_size alg buf keyalg kd = Ok tt.
+Proof.
+  unfold bg_key_match. destruct (bg_has_hash buf); [|discriminate].
+  destruct (check_key_hash H bg_hash_size alg buf keyalg kd) as [[]| | |]; try discriminate. auto.
+Qed.
+
+Lemma bg_key_match_value H alg buf keyalg kd b :
+  bg_key_match H alg buf keyalg kd = Ok b -> b = true.
+Proof.
+  unfold bg_key_match. destruct (bg_has_hash buf); [|discriminate].
+  destruct (check_key_hash H bg_hash_size alg buf keyalg kd) as [[]| | |]; intros Hx; inversion Hx; reflexivity.
+Qed.
+
+(** ... hence BPMKeyMatchKMHash ALONE is the binding check: whenever it reports a
+    match KMHasBPMHash does too. *)
+Lemma bg_key_match_is_binding H alg buf keyalg kd :
+  is_ok_true (bg_key_match H alg buf keyalg kd) = bg_binding_ok H alg buf keyalg kd.
+Proof.
+  unfold bg_binding_ok, bg_km_has_bpm_hash, bg_key_match.
+  destruct (bg_has_hash buf); reflexivity.
+Qed.
+
+Theorem keymatch_alone_bg H :
+  (forall x, length (H AlgSHA256 x) = 32%nat) ->
+  forall alg buf kd, (4 <= length kd)%nat ->
+  (bg_key_match H alg buf AlgRSA kd = Ok true <->
+   alg = AlgSHA256 /\ buf = H AlgSHA256 (skipn 4 kd)).
+Proof.
+  intros Hlen alg buf kd Hk. rewrite <- (binding_exact_bg H Hlen alg buf kd Hk).
+  rewrite <- bg_key_match_is_binding.
+  destruct (bg_key_match H alg buf AlgRSA kd) as [[|]| | |] eqn:Hm; cbn [is_ok_true];
+    split; intros Hx; try discriminate; try reflexivity.
+Qed.
+
 Theorem binding_same_key_bg H :
   (forall x, length (H AlgSHA256 x) = 32%nat) ->
   forall kd0 kd, (4 <= length kd)%nat ->
@@ -349,71 +413,110 @@ Proof.
         destruct Hb as [Hb|[h' [[->|Hin] Hodd]]]; [left; exact Hb|congruence|right; eauto].
 Qed.
 
-Lemma cbnt_key_match_loop_spec H kd l all :
-  (cbnt_validate H all AlgRSA kd = Ok tt \/ exists c, cbnt_validate H all AlgRSA kd = Err c) ->
-  (cbnt_key_match_loop H l all AlgRSA kd = Ok true <->
-   (existsb (fun h => kh_usage h =? UsageBPMSigningPKD) l = false \/ cbnt_validate H all AlgRSA kd = Ok tt)).
+(** the loop of BPMKeyMatchKMHash, for ANY key algorithm and key data: a match is
+    reported exactly when some entry was looked at (now or earlier) and, if one is
+    looked at in the rest of the list, ValidateBPMKey succeeded *)
+Lemma cbnt_key_match_loop_spec H keyalg kd all l :
+  forall compared,
+  (cbnt_key_match_loop H l all keyalg kd compared = Ok true <->
+   (compared = true \/ existsb (fun h => Z.odd (kh_usage h)) l = true) /\
+   (existsb (fun h => Z.odd (kh_usage h)) l = true -> cbnt_validate H all keyalg kd = Ok tt)).
 Proof.
-  intros Hv. induction l as [|h t IH]; cbn [cbnt_key_match_loop existsb].
-  - split; [left; reflexivity|reflexivity].
-  - destruct (kh_usage h =? UsageBPMSigningPKD) eqn:Hu; cbn [orb].
-    + destruct Hv as [Hok|[c Hc]].
-      * rewrite Hok. rewrite IH. split; [intros _; right; reflexivity|intros _; right; exact Hok].
-      * rewrite Hc. split; [discriminate|]. intros [Hx|Hx]; [discriminate|congruence].
-    + exact IH.
+  induction l as [|h t IH]; intros compared; cbn [cbnt_key_match_loop existsb].
+  - destruct compared; split; try discriminate.
+    + intros _. split; [left; reflexivity|discriminate].
+    + reflexivity.
+    + intros [[Hx|Hx] _]; discriminate.
+  - destruct (Z.odd (kh_usage h)) eqn:Ho; cbn [orb].
+    + destruct (cbnt_validate H all keyalg kd) as [[]| | |] eqn:Hv.
+      * rewrite IH. split.
+        -- intros _. split; [right; reflexivity|reflexivity].
+        -- intros _. split; [left; reflexivity|reflexivity].
+      * split; [discriminate|]. intros [_ Hx]. specialize (Hx eq_refl). discriminate.
+      * split; [discriminate|]. intros [_ Hx]. specialize (Hx eq_refl). discriminate.
+      * split; [discriminate|]. intros [_ Hx]. specialize (Hx eq_refl). discriminate.
+    + apply IH.
+Qed.
+
+Lemma cbnt_key_match_spec H hs keyalg kd :
+  cbnt_key_match H hs keyalg kd = Ok true <->
+  cbnt_has_hash hs = true /\ cbnt_validate H hs keyalg kd = Ok tt.
+Proof.
+  unfold cbnt_key_match, cbnt_has_hash. rewrite cbnt_key_match_loop_spec. split.
+  - intros [[Hx|Hx] Hv]; [discriminate|]. auto.
+  - intros [Hx Hv]. split; [right; exact Hx|intros _; exact Hv].
+Qed.
+
+Lemma cbnt_key_match_value H hs keyalg kd b :
+  cbnt_key_match H hs keyalg kd = Ok b -> b = true.
+Proof.
+  unfold cbnt_key_match. generalize false. generalize hs at 1.
+  intros l; induction l as [|h t IH]; intros c; cbn [cbnt_key_match_loop].
+  - destruct c; intros Hx; inversion Hx; reflexivity.
+  - destruct (Z.odd (kh_usage h)); [|apply IH].
+    destruct (cbnt_validate H hs keyalg kd) as [[]| | |]; try discriminate. apply IH.
+Qed.
+
+(** BPMKeyMatchKMHash ALONE is the binding check (all inputs). *)
+Lemma cbnt_key_match_is_binding H hs keyalg kd :
+  is_ok_true (cbnt_key_match H hs keyalg kd) = cbnt_binding_ok H hs keyalg kd.
+Proof.
+  unfold cbnt_binding_ok, cbnt_km_has_bpm_hash.
+  destruct (cbnt_key_match H hs keyalg kd) as [[|]| | |] eqn:Hm; cbn [is_ok_true].
+  - apply cbnt_key_match_spec in Hm. destruct Hm as [Hh _]. rewrite Hh. reflexivity.
+  - apply cbnt_key_match_value in Hm. discriminate.
+  - rewrite andb_false_r. reflexivity.
+  - rewrite andb_false_r. reflexivity.
+  - rewrite andb_false_r. reflexivity.
+Qed.
+
+Theorem keymatch_alone_cbnt H :
+  (forall alg n x, cbnt_hash_size alg = Some n -> length (H alg x) = n) ->
+  forall hs kd, (4 <= length kd)%nat ->
+  (cbnt_key_match H hs AlgRSA kd = Ok true <->
+   (exists h, In h hs /\ Z.odd (kh_usage h) = true) /\
+   (forall h, In h hs -> Z.odd (kh_usage h) = true -> entry_ok H kd h)).
+Proof.
+  intros Hlen hs kd Hk. rewrite cbnt_key_match_spec.
+  destruct (cbnt_validate_from_spec H Hlen kd Hk hs 0%nat) as [Hspec _].
+  fold (cbnt_validate H hs AlgRSA kd) in Hspec. rewrite Hspec.
+  unfold cbnt_has_hash. rewrite existsb_exists. split.
+  - intros [Hex [Hall _]]. split; [exact Hex|exact Hall].
+  - intros [Hex Hall]. split; [exact Hex|]. split; [exact Hall|right; exact Hex].
 Qed.
 
 Theorem binding_exact_cbnt H :
   (forall alg n x, cbnt_hash_size alg = Some n -> length (H alg x) = n) ->
   forall hs kd, (4 <= length kd)%nat ->
   (cbnt_binding_ok H hs AlgRSA kd = true <->
-   (exists h, In h hs /\ kh_usage h = UsageBPMSigningPKD) /\
+   (exists h, In h hs /\ Z.odd (kh_usage h) = true) /\
    (forall h, In h hs -> Z.odd (kh_usage h) = true -> entry_ok H kd h)).
 Proof.
-  intros Hlen hs kd Hk. unfold cbnt_binding_ok, cbnt_km_has_bpm_hash, cbnt_key_match.
-  destruct (cbnt_validate_from_spec H Hlen kd Hk hs 0%nat) as [Hspec Hcases].
-  fold (cbnt_validate H hs AlgRSA kd) in Hspec, Hcases.
-  pose proof (cbnt_key_match_loop_spec H kd hs hs Hcases) as Hloop.
-  destruct (cbnt_has_hash hs) eqn:Hh; cbn [is_ok_true andb].
-  - unfold cbnt_has_hash in Hh.
-    assert (Hex : exists h, In h hs /\ kh_usage h = UsageBPMSigningPKD).
-    { apply existsb_exists in Hh. destruct Hh as [h [Hin Hu]]. apply Z.eqb_eq in Hu. eauto. }
-    split.
-    + intros Hm. split; [exact Hex|].
-      assert (Hm' : cbnt_key_match_loop H hs hs AlgRSA kd = Ok true).
-      { destruct (cbnt_key_match_loop H hs hs AlgRSA kd) as [[|]| | |]; cbn in Hm; try discriminate; reflexivity. }
-      apply Hloop in Hm'. destruct Hm' as [Hx|Hx]; [congruence|]. apply Hspec in Hx. apply Hx.
-    + intros [_ Hall].
-      assert (Hv : cbnt_validate H hs AlgRSA kd = Ok tt).
-      { apply Hspec. split; [exact Hall|]. right. destruct Hex as [h [Hin Hu]]. exists h. split; [exact Hin|].
-        rewrite Hu. reflexivity. }
-      assert (Hm' : cbnt_key_match_loop H hs hs AlgRSA kd = Ok true) by (apply Hloop; right; exact Hv).
-      rewrite Hm'. reflexivity.
-  - split; [discriminate|]. intros [[h [Hin Hu]] _]. unfold cbnt_has_hash in Hh.
-    assert (existsb (fun h => kh_usage h =? UsageBPMSigningPKD) hs = true).
-    { apply existsb_exists. exists h. split; [exact Hin|]. apply Z.eqb_eq. exact Hu. }
-    congruence.
+  intros Hlen hs kd Hk. rewrite <- cbnt_key_match_is_binding, <- (keymatch_alone_cbnt H Hlen hs kd Hk).
+  destruct (cbnt_key_match H hs AlgRSA kd) as [[|]| | |] eqn:Hm; cbn [is_ok_true];
+    split; intros Hx; try discriminate; try reflexivity.
 Qed.
 
 (** The KM as GetBPMPubHash makes it (one BPM entry) plus entries of other usages. *)
 Theorem binding_same_key_cbnt H :
   (forall alg n x, cbnt_hash_size alg = Some n -> length (H alg x) = n) ->
-  forall alg kd0 kd pre post, (4 <= length kd)%nat ->
+  forall usage alg kd0 kd pre post, (4 <= length kd)%nat ->
+  Z.odd usage = true ->
   cbnt_hash_size alg <> None ->
   Forall (fun h => Z.odd (kh_usage h) = false) (pre ++ post) ->
   (H alg (skipn 4 kd0) = H alg (skipn 4 kd) -> skipn 4 kd0 = skipn 4 kd) ->
-  (cbnt_binding_ok H (pre ++ mk_kmhash UsageBPMSigningPKD alg (H alg (skipn 4 kd0)) :: post) AlgRSA kd = true
+  (cbnt_binding_ok H (pre ++ mk_kmhash usage alg (H alg (skipn 4 kd0)) :: post) AlgRSA kd = true
    <-> skipn 4 kd0 = skipn 4 kd).
 Proof.
-  intros Hlen alg kd0 kd pre post Hk Hs Hoth Hinj.
+  intros Hlen usage alg kd0 kd pre post Hk Hu Hs Hoth Hinj.
   rewrite (binding_exact_cbnt H Hlen _ kd Hk).
-  set (e := mk_kmhash UsageBPMSigningPKD alg (H alg (skipn 4 kd0))).
+  set (e := mk_kmhash usage alg (H alg (skipn 4 kd0))).
   split.
   - intros [_ Hall]. apply Hinj.
     assert (Hin : In e (pre ++ e :: post)) by (apply in_or_app; right; left; reflexivity).
-    destruct (Hall e Hin eq_refl) as [_ Hb]. exact Hb.
+    destruct (Hall e Hin Hu) as [_ Hb]. exact Hb.
   - intros Heq. split.
-    + exists e. split; [apply in_or_app; right; left; reflexivity|reflexivity].
+    + exists e. split; [apply in_or_app; right; left; reflexivity|exact Hu].
     + intros h Hin Hodd. apply in_app_or in Hin. rewrite Forall_forall in Hoth.
       destruct Hin as [Hin|[<-|Hin]].
       * rewrite (Hoth h) in Hodd; [discriminate|apply in_or_app; left; exact Hin].
@@ -505,7 +608,7 @@ Proof.
   intros Hlen st alg kd0 kd Hk Hs Hbg Hinj. destruct st as [a b|hs]; cbn [placed_state km_binding_ok].
   - subst alg. apply binding_same_key_bg; auto;
       intros x; apply (Hlen AlgSHA256 32%nat x); reflexivity.
-  - apply (binding_same_key_cbnt H Hlen alg kd0 kd [] []); auto.
+  - apply (binding_same_key_cbnt H Hlen UsageBPMSigningPKD alg kd0 kd [] []); auto.
     constructor.
 Qed.
 
@@ -631,19 +734,35 @@ Lemma history_example :
   km_binding_ok toyH (km_run toyH st0 steps) AlgRSA old = false.
 Proof. cbv zeta. repeat split; vm_compute; reflexivity. Qed.
 
-(** BG 1.0 with SHA1 (which GetBPMPubHash accepts): the digest placed is not
-    recognised by KMHasBPMHash (2+20 <= 32), the binding check fails for the very
-    key that was placed.  [finding C18-binding-failopen] *)
-Lemma rekey_bg_sha1_witness :
-  exists (H : Z -> bytes -> bytes) (st st' : kmstate) (kd : bytes),
-    (forall alg n x, cbnt_hash_size alg = Some n -> length (H alg x) = n) /\
-    (4 <= length kd)%nat /\
-    km_place H st true (Some AlgSHA1) kd = (Ok tt, st') /\
-    km_binding_ok H st' AlgRSA kd = false.
+(** BG 1.0 with SHA1, which GetBPMPubHash accepts: the digest placed (2+20 <= 32,
+    "everything more secure than SHA-1") is not taken as a BPM key hash by either
+    function.  A characterisation, not a defect: since 24a2a40 the binding check
+    fails CLOSED, for the key that was placed and for every other key alike. *)
+Theorem rekey_bg_sha1_fails_closed H :
+  (forall x, length (H AlgSHA1 x) = 20%nat) ->
+  forall a b kd0 st',
+  km_place H (KmBG a b) true (Some AlgSHA1) kd0 = (Ok tt, st') ->
+  exists buf, st' = KmBG AlgSHA1 buf /\ length buf = 20%nat /\
+    bg_km_has_bpm_hash buf = Err 1 /\
+    (forall keyalg kd, bg_key_match H AlgSHA1 buf keyalg kd = Err 2) /\
+    (forall keyalg kd, km_binding_ok H st' keyalg kd = false).
 Proof.
-  exists toyH, (KmBG AlgSHA256 (toyH AlgSHA256 [7;8;9])), (KmBG AlgSHA1 (toyH AlgSHA1 [7;8;10])), [1;0;1;0;7;8;10].
-  split; [exact toyH_len|]. split; [cbn; lia|]. split; vm_compute; reflexivity.
+  intros Hlen a b kd0 st' Hp.
+  apply km_place_ok_inv in Hp. destruct Hp as [alg [_ [Hr [_ [_ ->]]]]].
+  inversion Hr; subst alg. cbn [placed_state].
+  exists (H AlgSHA1 (skipn 4 kd0)).
+  assert (Hh : bg_has_hash (H AlgSHA1 (skipn 4 kd0)) = false).
+  { unfold bg_has_hash, minHashTypeSize. rewrite Hlen. reflexivity. }
+  split; [reflexivity|]. split; [apply Hlen|].
+  unfold bg_km_has_bpm_hash, bg_key_match, km_binding_ok, bg_binding_ok, bg_km_has_bpm_hash. rewrite Hh.
+  split; [reflexivity|]. split; intros; reflexivity.
 Qed.
+
+Lemma rekey_bg_sha1_example :
+  (forall x, length (toyH AlgSHA1 x) = 20%nat) /\
+  km_place toyH (KmBG AlgSHA256 (toyH AlgSHA256 [7;8;9])) true (Some AlgSHA1) [1;0;1;0;7;8;10]
+    = (Ok tt, KmBG AlgSHA1 (toyH AlgSHA1 [7;8;10])).
+Proof. split; [intros x; apply (toyH_len AlgSHA1 20%nat); reflexivity|vm_compute; reflexivity]. Qed.
 
 (** * 4. password *)
 
@@ -721,11 +840,23 @@ Proof.
   - rewrite (decrypt_encrypted K pw pw nonce pem Hne Hne Hn), Hc, Hk. reflexivity.
 Qed.
 
-Lemma decrypt_short_panics K data pw :
-  pw <> [] -> (length data < nonce_size)%nat -> decrypt_priv K data pw = Panic.
+Lemma decrypt_short_is_error K data pw :
+  pw <> [] -> (length data < nonce_size)%nat -> decrypt_priv K data pw = Err 3.
 Proof.
   intros Hp Hl. unfold decrypt_priv. rewrite (is_empty_false _ Hp).
   apply Nat.ltb_lt in Hl. rewrite Hl. reflexivity.
+Qed.
+
+(** DecryptPrivKey never panics: every input gives a key or an error. *)
+Lemma decrypt_total K data pw :
+  (exists k, decrypt_priv K data pw = Ok k) \/ (exists c, decrypt_priv K data pw = Err c).
+Proof.
+  unfold decrypt_priv.
+  destruct (is_empty pw).
+  - destruct (parse_key K data); eauto.
+  - destruct (length data <? nonce_size)%nat; [eauto|].
+    destruct (open K _ _ _) as [plain|]; [|eauto].
+    destruct (parse_key K plain); eauto.
 Qed.
 
 (** * Witnesses *)
@@ -742,18 +873,25 @@ Proof.
   intros g d m. apply toy_roundtrip.
 Qed.
 
-(** BG 1.0 BPM: SignBPM cuts at PMSE.KeySignatureOffset() (9), VerifyBPM at PMSEOffset(). *)
-Lemma sign_verify_bg10_bpm_witness :
-  exists (E : env) (m : M E) (sk : SK E) (file : bytes),
-    env_reasonable E /\
-    sign_cut E V10 BPM (prep E V10 BPM m) <> verify_cut E V10 BPM (prep E V10 BPM m) /\
-    sign_manifest E V10 BPM m AlgRSASSA AlgSHA256 sk = Ok file /\
-    verify_file E BPM file = Err 3.
+(** BG 1.0 BPM: SignBPM cuts at PMSEOffset(), where VerifyBPM cuts -- the suite's own
+    signature verifies (in the toy environment PMSE.KeySignatureOffset() is 9 and
+    PMSEOffset() is 13: with the cut of the code before ee4d7c9 this file was rejected). *)
+Lemma sign_verify_bg10_bpm_example :
+  let m := toy_unsigned 16 11 in
+  let sd := 5 :: AlgRSASSA :: [0;0;0;0;0;0;0;0;16;13;11;1;2] in
+  let m' := signed_struct Toy V10 BPM m AlgRSASSA AlgSHA256 5 sd in
+  env_reasonable Toy /\
+  pmse_ks_off Toy (prep Toy V10 BPM m) <> pmse_off Toy (prep Toy V10 BPM m) /\
+  sign_raw Toy 5 AlgRSASSA (signed_message Toy V10 BPM (prep Toy V10 BPM m)) = Some sd /\
+  detect (ser Toy m') = Some V10 /\ parse Toy V10 BPM (ser Toy m') = Some m' /\
+  sign_cut Toy V10 BPM m' = sign_cut Toy V10 BPM (prep Toy V10 BPM m) /\
+  firstn (sign_cut Toy V10 BPM (prep Toy V10 BPM m)) (ser Toy m') =
+    firstn (sign_cut Toy V10 BPM (prep Toy V10 BPM m)) (ser Toy (prep Toy V10 BPM m)) /\
+  sign_manifest Toy V10 BPM m AlgRSASSA AlgSHA256 5 = Ok (ser Toy m') /\
+  verify_file Toy BPM (ser Toy m') = Ok tt.
 Proof.
-  exists Toy, (toy_unsigned 16 11), 5,
-    (ser Toy (signed_struct Toy V10 BPM (toy_unsigned 16 11) AlgRSASSA AlgSHA256 5
-               (5 :: AlgRSASSA :: [0;0;0;0;0;0;0;0;16]))).
-  split; [exact toy_reasonable|]. split; [cbn; lia|]. split; vm_compute; reflexivity.
+  cbv zeta. split; [exact toy_reasonable|]. split; [cbn; lia|].
+  repeat split; vm_compute; reflexivity.
 Qed.
 
 (** CBnT: the hash label stored with the signature is the REQUESTED algorithm, the
@@ -822,7 +960,7 @@ Lemma sign_verify_example :
   scheme_sound Toy /\ store_laws Toy /\
   sign_raw Toy 5 AlgRSAPSS (signed_message Toy V20 BPM (prep Toy V20 BPM m)) = Some sd /\
   detect (ser Toy m') = Some V20 /\ parse Toy V20 BPM (ser Toy m') = Some m' /\
-  verify_cut Toy V20 BPM m' = sign_cut Toy V20 BPM (prep Toy V20 BPM m) /\
+  sign_cut Toy V20 BPM m' = sign_cut Toy V20 BPM (prep Toy V20 BPM m) /\
   firstn (sign_cut Toy V20 BPM (prep Toy V20 BPM m)) (ser Toy m') =
     firstn (sign_cut Toy V20 BPM (prep Toy V20 BPM m)) (ser Toy (prep Toy V20 BPM m)) /\
   stored_hash V20 AlgRSAPSS (req_hash Toy BPM (prep Toy V20 BPM m) AlgSHA384) = scheme_hash AlgRSAPSS /\
@@ -832,19 +970,37 @@ Proof.
   repeat split; vm_compute; reflexivity.
 Qed.
 
-(** BPMKeyMatchKMHash alone: a SHA1-sized digest (BG 1.0) or a shared usage (CBnT)
-    makes it report a match for every key. *)
-Lemma keymatch_failopen_bg :
-  exists buf : bytes, length buf = 20%nat /\
-    forall H alg keyalg kd, bg_key_match H alg buf keyalg kd = Ok true /\ bg_km_has_bpm_hash buf = Err 1.
-Proof. exists (repeat 0 20). split; [reflexivity|]. intros. split; reflexivity. Qed.
+(** BPMKeyMatchKMHash alone, on the inputs that made the code before 24a2a40 report
+    a match for every key: a SHA1-sized digest (BG 1.0) is an error for every key, a
+    shared usage (CBnT, bit 0 and another bit) is compared like any BPM entry. *)
+Lemma keymatch_closed_bg :
+  forall buf : bytes, (2 + length buf <= minHashTypeSize)%nat ->
+    forall H alg keyalg kd, bg_key_match H alg buf keyalg kd = Err 2 /\ bg_km_has_bpm_hash buf = Err 1.
+Proof.
+  intros buf Hl H alg keyalg kd. unfold bg_key_match, bg_km_has_bpm_hash.
+  assert (Hh : bg_has_hash buf = false) by (unfold bg_has_hash; apply Nat.ltb_ge; exact Hl).
+  rewrite Hh. split; reflexivity.
+Qed.
 
-Lemma keymatch_failopen_cbnt :
-  exists usage : Z, Z.odd usage = true /\
-    forall H alg buf keyalg kd,
-      cbnt_key_match H [mk_kmhash usage alg buf] keyalg kd = Ok true /\
-      cbnt_km_has_bpm_hash [mk_kmhash usage alg buf] = Err 1.
-Proof. exists 5. split; [reflexivity|]. intros. split; reflexivity. Qed.
+Lemma keymatch_no_entry_cbnt :
+  forall hs, Forall (fun h => Z.odd (kh_usage h) = false) hs ->
+    forall H keyalg kd, cbnt_key_match H hs keyalg kd = Err 2 /\ cbnt_km_has_bpm_hash hs = Err 1.
+Proof.
+  intros hs Hall H keyalg kd.
+  assert (Hh : cbnt_has_hash hs = false).
+  { unfold cbnt_has_hash. induction Hall as [|h t Hh _ IH]; cbn [existsb]; [reflexivity|]. rewrite Hh. exact IH. }
+  split; [|unfold cbnt_km_has_bpm_hash; rewrite Hh; reflexivity].
+  unfold cbnt_key_match. generalize hs at 2. intros all.
+  induction Hall as [|h t Hh' _ IH]; cbn [cbnt_key_match_loop]; [reflexivity|].
+  rewrite Hh'. apply IH. unfold cbnt_has_hash in Hh. cbn [existsb] in Hh. rewrite Hh' in Hh. exact Hh.
+Qed.
+
+Lemma keymatch_shared_usage_example :
+  let kd := [1;0;1;0;7;8;9] in let kd' := [1;0;1;0;7;8;10] in
+  let hs := [mk_kmhash 5 AlgSHA256 (toyH AlgSHA256 [7;8;9])] in
+  cbnt_key_match toyH hs AlgRSA kd = Ok true /\ cbnt_km_has_bpm_hash hs = Ok true /\
+  cbnt_key_match toyH hs AlgRSA kd' = Err 1.
+Proof. cbv zeta. repeat split; vm_compute; reflexivity. Qed.
 
 Lemma binding_example :
   let H := fun (alg : Z) (m : bytes) => repeat (fold_left Z.add m alg) 32 in
